@@ -214,6 +214,7 @@ class Ctx:
         """Obligation: `cond` holds for every value on this path.  Returns True if proved."""
         self.stats.labels[label] = self.stats.labels.get(label, 0) + 1
         self.stats.obligations += 1
+        self.n_prove = getattr(self, "n_prove", 0) + 1
         if self.vacuity_probe:
             cond = False
         cond = unwrap(cond)
